@@ -107,31 +107,30 @@ class BranchingList:
         """
         if m := re.match(f"(.*{Sign.CONDITION})([0-9]+)$", node.name):
             path_new = m.group(1)
-            path_old = ''
-            if self.state:
-                id_old = self._get_case_id()
-                path_old = self.cases[id_old].path
-            if node.case_type==Keyword.CASE:
+            # close openned branches that end at the indent of this clause
+            # and find out if the clause continues the current branch
+            same_branch = False
+            while self.state:
+                case_old = self.cases[self._get_case_id()]
+                if case_old.indent<node.indent:
+                    break
+                if case_old.indent==node.indent and case_old.path==path_new:
+                    same_branch = True
+                    break
+                self._close_branch()
+            # nothing but @end can follow @else, @else and @end need an open branch
+            after_else = same_branch and case_old.case_type==Keyword.ELSE
+            if node.case_type==Keyword.CASE and not after_else:
                 pass
-            elif node.case_type==Keyword.ELSE and self.cases:
+            elif node.case_type==Keyword.ELSE and same_branch and not after_else:
                 pass
-            elif node.case_type==Keyword.END and self.cases and path_old==path_new:
+            elif node.case_type==Keyword.END and same_branch:
                 self._close_branch()
                 return
             else:
                 raise Exception(f"Invalid condition:", node.code)
             case_id = fr"{Sign.CONDITION}{m.group(2)}"
-            if path_new==path_old:  # same branch
-                branch_part = self._switch_case(case_id, node.case_type)
-            elif path_new<path_old: # lower branch
-                # close openned branches unitil the same branch is reached
-                while path_new!=path_old:
-                    self._close_branch()
-                    if self.state:
-                        id_old = self._get_case_id()
-                        path_old = self.cases[id_old].path
-                    else:
-                        path_old = ''
+            if same_branch:         # same branch
                 branch_part = self._switch_case(case_id, node.case_type)
             else:                   # new branch
                 branch_part = self._open_branch(case_id)
